@@ -433,6 +433,9 @@ fn main() {
         }
     }
 
+    // ---- degenerate shapes, always present
+    degenerate_suite(&mut run, &mut rng);
+
     // ---- Sinkhorn on learned abstractions with generated metrics
     let n_metrics = if deep { 120 } else { 24 };
     let per_metric = if deep { 14 } else { 7 };
@@ -482,6 +485,9 @@ fn main() {
             let (nu, k2) = gen_hist(&mut rng, &universe, m);
             let tag = format!("{mkind}/{k1}-{k2}");
             sk_case(&mut run, &tag, &mu, &nu, &metric, true);
+            if n * m <= 900 {
+                emd_case(&mut run, "learned-generated", &mu, &nu, &metric);
+            }
             if ci % 3 == 0 {
                 // self distance: within misplaced + T*H of zero
                 let out = run_sinkhorn(&mu, &mu, &metric);
@@ -563,6 +569,9 @@ fn main() {
         let x = &pool[i];
         let y = &pool[(i * 7 + 3) % pool.len()];
         let z = &pool[(i * 13 + 5) % pool.len()];
+        if i % 4 == 0 {
+            emd_case(&mut run, "percent-generated", x, y, &Metric::default());
+        }
         let v = Equity::variation(x, y);
         run.evaluations += 1;
         let op = format!("var {} {}", hist_str(x), hist_str(y));
@@ -616,9 +625,161 @@ fn main() {
     }
 
     run.rule = format!(
-        "{} generated metrics (Euclidean 2-D, line, random symmetric, clustered nearly-degenerate, discrete, one-far-pair) over 4..160 learned abstractions, each with {} Sinkhorn instances (support sizes 1..100; uniform/geometric/dominant/random/bimodal masses; every third also as a self-distance) and greedy instances (half with disjoint supports); Sinkhorn on river buckets; {} equity histogram triples (supports 1..101); exhaustive abstraction layout 4x4096; Histogram::from ordering. Exact OT (f64 min-cost flow, dual-certified) on every Sinkhorn/greedy instance. distinct = distinct op lines with support > 1",
+        "degenerate suite in every tier (point masses incl. buckets 0/50/100 and mass 1 vs 46, 1-vs-1, 1-vs-many, identical, far-apart disjoint blocks; all ordered pairs and all triples) through Metric::emd, Equity::variation, Sinkhorn and the greedy plan; {} generated metrics (Euclidean 2-D, line, random symmetric, clustered nearly-degenerate, discrete, one-far-pair) over 4..160 learned abstractions, each with {} Sinkhorn instances (support sizes 1..100; uniform/geometric/dominant/random/bimodal masses; every third also as a self-distance) and greedy instances (half with disjoint supports); Sinkhorn on river buckets; {} equity histogram triples (supports 1..101); exhaustive abstraction layout 4x4096; Histogram::from ordering. Exact OT (f64 min-cost flow, dual-certified) on every Sinkhorn/greedy instance. distinct = distinct op lines with support > 1",
         n_metrics, per_metric, n_eq);
     run.finish();
+}
+
+/// the real `Metric::emd` entry point (what `Layer` calls), for Percent and Learned histograms
+fn emd_case(run: &mut Run, tag: &str, x: &Histogram, y: &Histogram, metric: &Metric) -> Option<f32> {
+    run.evaluations += 1;
+    let op = format!("emd {} {} {}", hist_str(x), hist_str(y), metric_str(metric));
+    let short = format!("Metric::emd[{tag}] x={} y={}", hist_str(x), hist_str(y));
+    let got = catch(AssertUnwindSafe(|| metric.emd(x, y)));
+    run.line(&op, &match got { Some(v) => fl(v), None => "panic".into() });
+    run.distinct(&op);
+    run.count(&format!("emd:{tag}"));
+    run.spec_checked += 1;
+    let v = match got {
+        None => { run.fail("emd-panics", &short, "a distance", "panic"); return None; }
+        Some(v) => v,
+    };
+    let percent = matches!(x.verif_counts()[0].0, Abstraction::Percent(_));
+    if percent {
+        // exact 1-D Wasserstein distance on the 0..100 grid, times 100/101
+        let pdf = |h: &Histogram| -> Vec<f64> {
+            let m = h.verif_mass() as f64;
+            let mut v = vec![0f64; 101];
+            for (a, c) in h.verif_counts() { v[a.index()] += c as f64 / m; }
+            v
+        };
+        let (p, q) = (pdf(x), pdf(y));
+        let (mut fx, mut fy, mut w) = (0f64, 0f64, 0f64);
+        for i in 0..100 { fx += p[i]; fy += q[i]; w += (fx - fy).abs(); }
+        let want = w / 100.0 * 100.0 / 101.0;
+        if (v as f64 - want).abs() > 2e-6 + 1e-5 * want {
+            run.fail("emd-equity-not-w1", &short, &format!("W1*100/101 = {want}"), &format!("{v}"));
+        }
+    } else {
+        // cost of the Sinkhorn plan: inside the band around the exact optimum
+        if let Some(o) = run_sinkhorn(x, y, metric) {
+            let dm = dens(x);
+            let dn = dens(y);
+            let rows: Vec<f64> = o.plan.iter().map(|r| r.iter().map(|&v| v as f64).sum()).collect();
+            let mis: f64 = 0.5 * rows.iter().zip(dm.iter()).map(|(r, (_, p))| (r - p).abs()).sum::<f64>();
+            let allow = T * entropy(&dm.iter().map(|e| e.1).collect::<Vec<_>>()).min(entropy(&dn.iter().map(|e| e.1).collect::<Vec<_>>()));
+            let (pr, du) = ot_hist(x, y, &|a, b| metric.distance(a, b) as f64);
+            if pr - du > 1e-7 { run.fail("oracle-self-check", &short, "primal = dual", &format!("primal {pr} dual {du}")); }
+            let c = v as f64;
+            if c < du - mis - 1e-4 || c > pr + mis + allow + 1e-4 {
+                run.fail("emd-learned-outside-band", &short, &format!("[{} - {mis}, {} + {mis} + {allow}]", du, pr), &format!("{c}"));
+            }
+        }
+    }
+    Some(v)
+}
+
+/// degenerate shapes that must be present in every tier, for every distance
+fn degenerate_suite(run: &mut Run, rng: &mut Rng) {
+    // ---------- Percent histograms through Metric::emd and Equity::variation
+    let river: Vec<Abstraction> = (0..=100).map(|i| Abstraction::from((Street::Rive, i))).collect();
+    let pt = |i: usize, m: usize| build_hist(&[river[i]], &[m]);
+    let block = |lo: usize, hi: usize, c: usize| build_hist(&river[lo..=hi], &vec![c; hi - lo + 1]);
+    let mut generic = vec![];
+    for _ in 0..46 { generic.push(river[20 + rng.below(60) as usize]); }
+    let named: Vec<(&str, Histogram)> = vec![
+        ("point@0", pt(0, 1)), ("point@1", pt(1, 1)), ("point@50", pt(50, 1)), ("point@99", pt(99, 1)), ("point@100", pt(100, 1)),
+        ("point@50x46", pt(50, 46)), ("point@0x46", pt(0, 46)),
+        ("block0-5", block(0, 5, 1)), ("block95-100", block(95, 100, 1)), ("uniform0-100", block(0, 100, 1)),
+        ("two-ends", build_hist(&[river[0], river[100]], &[23, 23])), ("generic46", Histogram::from(generic)),
+    ];
+    let none = Metric::default();
+    let k = named.len();
+    let mut d = vec![vec![0f32; k]; k];
+    for i in 0..k {
+        for j in 0..k {
+            let (x, y) = (&named[i].1, &named[j].1);
+            let tag = if x.n() == 1 && y.n() == 1 { "percent-1v1" } else if x.n() == 1 || y.n() == 1 { "percent-1vMany" } else { "percent-many" };
+            let v = emd_case(run, tag, x, y, &none).unwrap_or(f32::NAN);
+            d[i][j] = v;
+            // the same pair through Equity::variation directly
+            let direct = Equity::variation(x, y);
+            run.evaluations += 1;
+            run.line(&format!("var {} {}", hist_str(x), hist_str(y)), &fl(direct));
+            run.spec_checked += 1;
+            if direct.to_bits() != v.to_bits() {
+                run.fail("emd-differs-from-variation", &format!("{} vs {}", named[i].0, named[j].0), &format!("{direct}"), &format!("{v}"));
+            }
+        }
+    }
+    for i in 0..k {
+        run.spec_checked += 1;
+        if d[i][i] != 0.0 {
+            run.fail("emd-equity-self-distance-nonzero", named[i].0, "0", &format!("{}", d[i][i]));
+        }
+        for j in 0..k {
+            let same = { // point@50 and point@50x46 are the same distribution
+                let (a, b) = (&named[i].1, &named[j].1);
+                let (ca, cb) = (a.verif_counts(), b.verif_counts());
+                ca.len() == cb.len() && ca.iter().zip(cb.iter()).all(|((p, c), (q, e))| p == q && c * b.verif_mass() == e * a.verif_mass())
+            };
+            if d[i][j].to_bits() != d[j][i].to_bits() {
+                run.fail("emd-equity-asymmetric", &format!("{} vs {}", named[i].0, named[j].0), &format!("{}", d[i][j]), &format!("{}", d[j][i]));
+            }
+            if (d[i][j] == 0.0) != same {
+                run.fail("emd-equity-zero-iff-equal", &format!("{} vs {}", named[i].0, named[j].0), &format!("zero iff equal (equal = {same})"), &format!("{}", d[i][j]));
+            }
+            for l in 0..k {
+                run.spec_checked += 1;
+                if d[i][l] as f64 > d[i][j] as f64 + d[j][l] as f64 + 1e-6 {
+                    run.fail("emd-equity-triangle", &format!("{} -> {} -> {}", named[i].0, named[j].0, named[l].0),
+                        &format!("d(x,z) <= {} + {}", d[i][j], d[j][l]), &format!("{}", d[i][l]));
+                }
+            }
+        }
+    }
+    run.count_n("emd-percent-triangle-triples", (k * k * k) as u64);
+    // ---------- Learned histograms: Metric::emd, Sinkhorn (plan + band) and the greedy plan
+    for (mname, street) in [("line", Street::Turn), ("discrete", Street::Flop), ("one-far-pair", Street::Flop)] {
+        let uni: Vec<Abstraction> = (0..12).map(|i| Abstraction::from((street, i * 7 + 1))).collect();
+        let mut raw = BTreeMap::new();
+        for i in 0..12usize {
+            for j in 0..i {
+                let dist: f32 = match mname {
+                    "line" => (i - j) as f32,
+                    "discrete" => 1.0,
+                    _ => if (i, j) == (11, 0) { 1.0 } else { 1e-5 * (1.0 + (i + j) as f32) },
+                };
+                raw.insert(Pair::from((&uni[i], &uni[j])), dist);
+            }
+        }
+        let metric = Metric::from(raw);
+        let pt = |i: usize, m: usize| build_hist(&[uni[i]], &[m]);
+        let mut generic = vec![];
+        for _ in 0..46 { generic.push(uni[rng.below(12) as usize]); }
+        let named: Vec<(&str, Histogram)> = vec![
+            ("point@0", pt(0, 1)), ("point@5", pt(5, 1)), ("point@11", pt(11, 1)), ("point@11x46", pt(11, 46)),
+            ("block0-2", build_hist(&uni[0..3], &[1, 1, 1])), ("block9-11", build_hist(&uni[9..12], &[1, 1, 1])),
+            ("uniform", build_hist(&uni, &vec![1; 12])), ("generic46", Histogram::from(generic)),
+        ];
+        for i in 0..named.len() {
+            for j in 0..named.len() {
+                let (x, y) = (&named[i].1, &named[j].1);
+                let shape = if x.n() == 1 && y.n() == 1 { "1v1" } else if x.n() == 1 || y.n() == 1 { "1vMany" } else if i == j { "identical" } else { "many" };
+                let tag = format!("degenerate-{mname}-{shape}");
+                sk_case(run, &tag, x, y, &metric, true);
+                let v = emd_case(run, &format!("learned-{shape}"), x, y, &metric);
+                // the entry point must give what the direct call gives
+                run.spec_checked += 1;
+                let direct = catch(AssertUnwindSafe(|| Sinkhorn::from((x, y, &metric)).minimize().cost()));
+                if v.map(f32::to_bits) != direct.map(f32::to_bits) {
+                    run.fail("emd-differs-from-sinkhorn", &format!("{mname}: {} vs {}", named[i].0, named[j].0), &format!("{direct:?}"), &format!("{v:?}"));
+                }
+                let disjoint = !x.verif_counts().iter().any(|(a, _)| y.verif_counts().iter().any(|(b, _)| a == b));
+                greedy_case(run, &format!("degenerate-{mname}"), x, y, &metric, disjoint);
+            }
+        }
+    }
 }
 
 fn greedy_case(run: &mut Run, mkind: &str, src: &Histogram, tgt: &Histogram, metric: &Metric, disjoint: bool) {
